@@ -14,6 +14,15 @@ output — total mass 1, joint law of the per-mode photon counts = product of th
 (pi0, pi1, pi2) derived from (brightness, g2, transmittance), law of the number of signal-tagged
 photons (carries the indistinguishability), freshness of all other tags, perfect source = identity.
 
+Long-lived `Processor` (kind "hist"): random histories of in-place `NoiseModel.set_value` updates (through the
+kept reference or through `processor.noise`), assignments (the same object again, an equal new object, a new
+object differing in one field, another object, None; via `processor.noise` or `processor.experiment.noise`),
+`with_input`, reads of `source_distribution` (which fill the cache) and direct requests to `processor.source`
+are replayed step by step against the Lean state machine `Model/C06Proc.lean` (object identity explicit); every
+read outside the "updated in place, not yet assigned again" state is also judged by the direct oracle for the
+CURRENT parameters and input, with a brand-new Processor as control (signature
+`history-dependent-source-distribution`).
+
 `generate_samples` is checked by a goodness-of-fit TEST (exact binomial tails, Bonferroni, total
 false-alarm level 1e-9) against the exact model distribution — a statistical test, not a proof.
 """
